@@ -362,6 +362,11 @@ def c15(tier, seed, replay=None):
     nsh = 14
     shards = [{"shard": k, "nshards": nsh} for k in range(nsh)]
     rows, files = vlib.parallel_replay("dispatch_sweep.py", shards, nproc=nsh, tag="dispatch", timeout=1500)
+    # the SciPy-compatible namespaces (autograd.scipy.special / .linalg - which wraps ALL of scipy.linalg - / .signal / .stats.<dist>), swept
+    # with the same templates under the tooling interpreter (the repository's own has no SciPy)
+    sshards = [{"shard": k, "nshards": 8, "scipy": True} for k in range(8)]
+    srows, sfiles = vlib.parallel_replay("dispatch_sweep.py", sshards, nproc=8, tag="dispatch-scipy", timeout=1500, py=vlib.PY_SCIPY)
+    rows, files = rows + srows, files + sfiles
     d = vlib.subdir("judge-C15")
     jfiles = [vlib.write_ndjson(os.path.join(d, "r%d.ndjson" % k), part) for k, part in enumerate(vlib.chunks(rows, 8))]
     accepted, g2, d2, _w, _inv = vlib.parallel_validate("TraceDispatch", jfiles, cfg="SPECIFICATION Spec\n", njvm=8)
@@ -390,6 +395,7 @@ def c15(tier, seed, replay=None):
                                                                      if r_["outcome"] in ("derivative", "raised", "zero")}),
                 "callables_with_an_accepted_template": len(callables), "callables_with_float_output": len(with_float),
                 "guard_cases": sum(1 for r_ in rows if r_["guard"]), "outcomes": outcomes, "exhaustive": False,
+                "scipy_namespace_rows": len(srows), "scipy_callables": len({(r_["ns"], r_["name"]) for r_ in srows}),
                 "rule": "a row = (exported callable of autograd.numpy/.linalg/.fft/.random or ArrayBox attribute, call template accepted by NumPy, positional "
                         "float argument, mode); varies = the NumPy float output changes under perturbations of 1e-7 and 1e-9 of either sign; plus 20 guard "
                         "cases that must raise; distinct_nontrivial = rows whose outcome is a derivative, a raise or a zero",
